@@ -60,3 +60,68 @@ Proof.
   cbn [rs] in H. specialize (H (next_results_no_np _ _)). rewrite E in H. exact H.
 Qed.
 Print Assumptions format_never_panics.
+
+(* ---------- the formatter model never returns an error, for EVERY input: it has no failure of its own (format.go's only
+   error is the writer's) - so for every input it yields a text, unless it runs out of fuel ---------- *)
+Definition noerr_m {A} (m : M A) : Prop := forall s, m s <> PErr.
+Lemma ne_ret {A} (a : A) : noerr_m (ret a). Proof. intros s. discriminate. Qed.
+Lemma ne_nofuel {A} : noerr_m (@nofuel A). Proof. intros s. discriminate. Qed.
+Lemma ne_bind {A B} (m : M A) (f : A -> M B) : noerr_m m -> (forall a, noerr_m (f a)) -> noerr_m (bind m f).
+Proof. intros Hm Hf s. unfold bind. specialize (Hm s). destruct (m s) as [a s'| | |]; try discriminate; [apply Hf|congruence]. Qed.
+Lemma ne_p_next : noerr_m p_next.
+Proof. intros s. unfold p_next. destruct (keep s); [discriminate|]. destruct (rs s) as [|[t e|e|] r]; discriminate. Qed.
+Lemma ne_p_unnext : noerr_m p_unnext. Proof. intros s. discriminate. Qed.
+Lemma ne_p_tok : noerr_m p_tok. Proof. intros s. discriminate. Qed.
+Lemma ne_p_kind : noerr_m p_kind. Proof. intros s. discriminate. Qed.
+Lemma ne_conc : noerr_m conc. Proof. intros s. discriminate. Qed.
+Create HintDb noerr.
+#[export] Hint Resolve ne_ret ne_nofuel ne_p_next ne_p_unnext ne_p_tok ne_p_kind ne_conc : noerr.
+Ltac ne :=
+  repeat first
+    [ solve [auto with noerr]
+    | apply ne_bind; [|intro]
+    | match goal with |- noerr_m (if ?c then _ else _) => destruct c end
+    | match goal with |- noerr_m (match ?x with _ => _ end) => destruct x end
+    | progress cbv zeta ].
+Lemma ne_next_cat n : forall sep acc, noerr_m (next_cat n sep acc).
+Proof. induction n as [|n IH]; intros; cbn [next_cat]; ne. Qed.
+#[export] Hint Resolve ne_next_cat : noerr.
+Lemma ne_suffix_loop g : forall body, noerr_m (suffix_loop g body).
+Proof. induction g as [|g IH]; intros; cbn [suffix_loop]; ne. Qed.
+#[export] Hint Resolve ne_suffix_loop : noerr.
+Lemma ne_format_type g : noerr_m (format_type g).
+Proof. induction g as [|g IH]; cbn [format_type]; ne. Qed.
+#[export] Hint Resolve ne_format_type : noerr.
+Lemma ne_deprecated_line p t : noerr_m (deprecated_line p t).
+Proof. unfold deprecated_line. ne. Qed.
+#[export] Hint Resolve ne_deprecated_line : noerr.
+Lemma ne_member_loop g : forall acc ao, noerr_m (member_loop g acc ao).
+Proof. induction g as [|g IH]; intros; cbn [member_loop]; ne. Qed.
+#[export] Hint Resolve ne_member_loop : noerr.
+Lemma ne_format_enum_loop g : forall acc, noerr_m (format_enum_loop g acc).
+Proof. induction g as [|g IH]; intros; cbn [format_enum_loop]; ne. Qed.
+#[export] Hint Resolve ne_format_enum_loop : noerr.
+Lemma ne_format_enum g : noerr_m (format_enum g). Proof. unfold format_enum. ne. Qed.
+Lemma ne_format_const : noerr_m format_const. Proof. unfold format_const. ne. Qed.
+#[export] Hint Resolve ne_format_enum ne_format_const : noerr.
+Lemma ne_format_struct_loop g : forall p acc, noerr_m (format_struct_loop g p acc).
+Proof. induction g as [|g IH]; intros; cbn [format_struct_loop]; ne. Qed.
+#[export] Hint Resolve ne_format_struct_loop : noerr.
+Lemma ne_format_struct g ro p : noerr_m (format_struct g ro p). Proof. unfold format_struct. ne. Qed.
+#[export] Hint Resolve ne_format_struct : noerr.
+Lemma ne_format_message_loop g : forall p acc, noerr_m (format_message_loop g p acc).
+Proof. induction g as [|g IH]; intros; cbn [format_message_loop]; ne. Qed.
+#[export] Hint Resolve ne_format_message_loop : noerr.
+Lemma ne_format_message g p : noerr_m (format_message g p). Proof. unfold format_message. ne. Qed.
+#[export] Hint Resolve ne_format_message : noerr.
+Lemma ne_format_union_loop g : forall p acc, noerr_m (format_union_loop g p acc).
+Proof. induction g as [|g IH]; intros; cbn [format_union_loop]; ne. Qed.
+#[export] Hint Resolve ne_format_union_loop : noerr.
+Lemma ne_format_union g p : noerr_m (format_union g p). Proof. unfold format_union. ne. Qed.
+#[export] Hint Resolve ne_format_union : noerr.
+Lemma ne_format_loop g : forall out ro nl, noerr_m (format_loop g out ro nl).
+Proof. induction g as [|g IH]; intros; cbn [format_loop]; ne. Qed.
+
+Theorem format_never_errs input : format input <> PErr.
+Proof. unfold format. apply ne_format_loop. Qed.
+Print Assumptions format_never_errs.
